@@ -225,7 +225,7 @@ func (c *cmp) dyn(path string, wv, gv reflect.Value) error {
 		}
 		return c.static(path, wv, gv.Elem(), false)
 	case reflect.Slice:
-		if wv.Type().Elem().Kind() == reflect.Uint8 {
+		if wv.Type() == zoo.BytesType {
 			if wv.Len() == 0 && isNilish(gv) {
 				return nil
 			}
